@@ -62,6 +62,28 @@ Section Render.
   Definition excerpt_lines (r : range) : N := el r - usub1 (sl r).
 End Render.
 
+(* ---- which diagnostics get an excerpt: the handler's file-selection rule ---------------------------
+   MakeAdvancedHandler(file, src, w) owns ONE text, src = the text of `file` (cmd/kddp passes the main
+   file as spelled on the command line). handler.go:28 `file = filepath.Clean(file)`, handler.go:34
+   `if filepath.Clean(err.File) != file { basicHandler(err); return }`: a diagnostic is rendered with an
+   excerpt iff the cleaned path it names EQUALS the cleaned path of the owned file; every other diagnostic
+   gets the header line only. filepath.Clean and "the text a path names" are parameters. *)
+Section Handler.
+  Variable path : Type.
+  Variable path_eqb : path -> path -> bool.
+  Variable clean : path -> path.
+  Variable text_of : path -> list N.
+  Variable slack : N -> N.
+
+  Definition handled (file errfile : path) : bool := path_eqb (clean errfile) file.
+
+  (* the handler created for `file`, applied to a diagnostic naming errfile with range r *)
+  Definition handler_ok (file errfile : path) (r : range) : bool :=
+    render_ok_fast slack (handled (clean file) errfile) (text_of file) r.
+  Definition shown_lines (file errfile : path) (r : range) : N :=
+    if handled (clean file) errfile then excerpt_lines r else 0.
+End Handler.
+
 (* ---- specification side --------------------------------------------------------------------- *)
 (* position (l, c) lies in the text; columns are 1-based and a column may point just behind the
    last rune of its line (End.Column is exclusive; the EOF token sits there) *)
